@@ -6,9 +6,12 @@ package main
 // transaction decoders, era rule lists and default protocol parameters.
 
 import (
+	"crypto/ed25519"
 	"encoding/binary"
 	"fmt"
 	"math/big"
+	"sort"
+	"strings"
 
 	"github.com/blinklabs-io/gouroboros/ledger/allegra"
 	"github.com/blinklabs-io/gouroboros/ledger/alonzo"
@@ -261,4 +264,67 @@ func g1RewardAddr(seed byte) []byte {
 		a[i] = seed
 	}
 	return a
+}
+
+// ---- fully valid transactions ------------------------------------------------
+
+// g1Key is a deterministic ed25519 key; its enterprise address (network 1)
+// locks the inputs of generated transactions.
+type g1Key struct {
+	priv ed25519.PrivateKey
+	pub  ed25519.PublicKey
+}
+
+func g1NewKey(seed byte) g1Key {
+	s := make([]byte, ed25519.SeedSize)
+	for i := range s {
+		s[i] = seed
+	}
+	priv := ed25519.NewKeyFromSeed(s)
+	return g1Key{priv: priv, pub: priv.Public().(ed25519.PublicKey)}
+}
+
+func (k g1Key) keyHash() []byte { return common.Blake2b224Hash(k.pub).Bytes() }
+
+// addr: enterprise key-hash address, network id `net`.
+func (k g1Key) addr(net byte) []byte { return append([]byte{0x60 | net}, k.keyHash()...) }
+
+// rewardAddr: key-hash reward account.
+func (k g1Key) rewardAddr(net byte) []byte { return append([]byte{0xe0 | net}, k.keyHash()...) }
+
+// witness: [vkey, signature over the body hash]
+func (k g1Key) witness(body []byte) []byte {
+	h := common.Blake2b256Hash(body)
+	return cbArray(cbBytes(k.pub), cbBytes(ed25519.Sign(k.priv, h.Bytes())))
+}
+
+// g1SignedTx wraps a body into the era's envelope with vkey witnesses by keys.
+func g1SignedTx(era string, body []byte, keys ...g1Key) []byte {
+	ws := [][]byte{}
+	for _, k := range keys {
+		ws = append(ws, k.witness(body))
+	}
+	wits := cbMap(cbUint(0), cbArray(ws...))
+	return g1Envelope(era, body, wits, true, nil, 0, 0)
+}
+
+// g1RunRules runs every rule of the era's list and returns the sorted, de-duplicated
+// type names of the errors (empty = the transaction is accepted).
+func g1RunRules(era string, tx common.Transaction, slot uint64, ls common.LedgerState, pp common.ProtocolParameters) []string {
+	seen := map[string]bool{}
+	for _, rule := range g1Rules(era) {
+		if e := safeRule(rule, tx, slot, ls, pp); e != nil {
+			n := fmt.Sprintf("%T", e)
+			if i := strings.LastIndex(n, "."); i >= 0 {
+				n = n[i+1:]
+			}
+			seen[n] = true
+		}
+	}
+	res := []string{}
+	for n := range seen {
+		res = append(res, n)
+	}
+	sort.Strings(res)
+	return res
 }
